@@ -199,6 +199,14 @@ class Built(object):
         self.region = region or {}    # signature region tags of this node
         self.extra = extra or {}
 
+    def value(self, x):
+        """Library value; functionals without ``_call`` (MoreauEnvelope and
+        expressions over it) are assembled from their parts."""
+        if self.cls == 'moreau' or (self.assemble is not None and any(
+                n.cls == 'moreau' for n in self.nodes())):
+            return self.assemble(x)
+        return self.f(x)
+
     def leaves(self):
         if not self.children:
             return [self]
@@ -445,7 +453,7 @@ def build_func(space, sd, fd, geo=None):
         s = float(fd['s'])
         f = s * c.f
         ref = None if rv(c) is None else R.LeftScal(rv(c), s)
-        return node(f, ref, [c], lambda x: s * c.f(x))
+        return node(f, ref, [c], lambda x: s * c.value(x))
     if cls == 'rightscal':
         c = child()
         s = float(fd['s'])
@@ -455,27 +463,27 @@ def build_func(space, sd, fd, geo=None):
         if c.f.is_linear and s < 0:
             # Functional.__mul__ turns f * s into s * f for linear f
             region['linneg'] = 1
-        return node(f, ref, [c], lambda x: c.f(s * x), region=region)
+        return node(f, ref, [c], lambda x: c.value(s * x), region=region)
     if cls == 'rightvec':
         c = child()
         v = _vec(space, fd['v'])
         vf = _flatv(space, v)
         f = c.f * v
         ref = None if rv(c) is None else R.RightVec(rv(c), vf)
-        return node(f, ref, [c], lambda x: c.f(v * x))
+        return node(f, ref, [c], lambda x: c.value(v * x))
     if cls == 'scalarsum':
         c = child()
         k = float(fd['c'])
         f = c.f + k
         ref = None if rv(c) is None else R.ScalarSum(rv(c), k)
-        return node(f, ref, [c], lambda x: c.f(x) + k)
+        return node(f, ref, [c], lambda x: c.value(x) + k)
     if cls == 'translated':
         c = child()
         t = _vec(space, fd['t'])
         tf = _flatv(space, t)
         f = c.f.translated(t)
         ref = None if rv(c) is None else R.Translation(rv(c), tf)
-        return node(f, ref, [c], lambda x: c.f(x - t))
+        return node(f, ref, [c], lambda x: c.value(x - t))
     if cls == 'quadperturb':
         c = child()
         a = float(fd.get('a', 0.0))
@@ -486,7 +494,7 @@ def build_func(space, sd, fd, geo=None):
         ref = None if rv(c) is None else R.QuadPerturb(rv(c), a, uf, k)
 
         def asm(x):
-            v = c.f(x) + a * x.inner(x) + k
+            v = c.value(x) + a * x.inner(x) + k
             if u is not None:
                 v = v + x.inner(u)
             return v
@@ -496,7 +504,7 @@ def build_func(space, sd, fd, geo=None):
         f = c1.f + c2.f
         ref = (None if rv(c1) is None or rv(c2) is None
                else R.Sum(rv(c1), rv(c2)))
-        return node(f, ref, [c1, c2], lambda x: c1.f(x) + c2.f(x))
+        return node(f, ref, [c1, c2], lambda x: c1.value(x) + c2.value(x))
     if cls == 'infconv':
         c1, c2 = child('f'), child('g')
         f = S.InfimalConvolution(c1.f, c2.f)
@@ -507,10 +515,14 @@ def build_func(space, sd, fd, geo=None):
         c = child()
         p = _vec(space, fd['point'])
         pf = _flatv(space, p)
+        sg = None
         if fd.get('subgrad', 'ref') == 'grad':
-            sg = c.f.gradient(p)
-            sgf = _flatv(space, sg)
-        else:
+            try:
+                sg = c.f.gradient(p)
+                sgf = _flatv(space, sg)
+            except Exception:  # noqa  (the leaf is judged on its own)
+                sg = None
+        if sg is None:
             sgf = None if rv(c) is None else rv(c).subgrad(pf)
             if sgf is None:
                 raise Rejected('no reference subgradient at the point')
@@ -523,15 +535,15 @@ def build_func(space, sd, fd, geo=None):
             ref = R.QuadPerturb(rv(c), 0.0, -sgf, const)
             ref.name = 'BregmanDistance'
         return node(f, ref, [c],
-                    lambda x: c.f(x) - c.f(p) - sg.inner(x - p))
+                    lambda x: c.value(x) - c.value(p) - sg.inner(x - p))
     if cls == 'product':
         c1, c2 = child('f'), child('g')
         f = S.FunctionalProduct(c1.f, c2.f)
-        return node(f, None, [c1, c2], lambda x: c1.f(x) * c2.f(x))
+        return node(f, None, [c1, c2], lambda x: c1.value(x) * c2.value(x))
     if cls == 'quotient':
         c1, c2 = child('f'), child('g')
         f = S.FunctionalQuotient(c1.f, c2.f)
-        return node(f, None, [c1, c2], lambda x: c1.f(x) / c2.f(x))
+        return node(f, None, [c1, c2], lambda x: c1.value(x) / c2.value(x))
     if cls == 'moreau':
         c = child()
         sig = float(fd['sigma'])
@@ -557,7 +569,7 @@ def build_func(space, sd, fd, geo=None):
             region['gradop'] = 'bdry={}'.format(
                 int(wkind(geo.w) == 'array'))
         b = Built(f, None, space, sd, geo, cls, children=[inner],
-                  assemble=lambda x: inner.f(op(x)), region=region,
+                  assemble=lambda x: inner.value(op(x)), region=region,
                   extra={'op': op, 'opinfo': info, 'opkind':
                          fd['op']['kind']})
         return b
@@ -571,7 +583,7 @@ def build_func(space, sd, fd, geo=None):
         ref = (None if any(k.ref is None for k in kids)
                else R.SeparableSum(geo, [k.ref for k in kids]))
         return node(f, ref, kids,
-                    lambda x: sum(k.f(xi) for k, xi in zip(kids, x)))
+                    lambda x: sum(k.value(xi) for k, xi in zip(kids, x)))
     if cls == 'sepsum_power':
         m = int(fd['n'])
         kid = build_func(space[0], sd['base'], fd['f'])
@@ -585,7 +597,7 @@ def build_func(space, sd, fd, geo=None):
                         for _ in range(m)]
             ref = R.SeparableSum(geo, kids_ref)
         return node(f, ref, [kid],
-                    lambda x: sum(kid.f(xi) for xi in x))
+                    lambda x: sum(kid.value(xi) for xi in x))
     raise HarnessError('unknown functional descriptor {!r}'.format(cls))
 
 
@@ -777,7 +789,7 @@ def spd_matrices(draw, n, symmetric=True):
 
 @st.composite
 def quadratic_forms(draw, sd, n, allow_known_bad=True, for_conj=True):
-    flatsp = sd['kind'] in ('tensor', 'discr')
+    flatsp = sd['kind'] in ('tensor', 'discr') and len(sd['shape']) == 1
     kinds = ['none', 'scaling', 'multiply']
     if flatsp:
         kinds += ['matrix_sym', 'matrix_sym']
